@@ -406,6 +406,49 @@ def judge_fwd(rt, orc, routes=("py", "c", "cf", "numba", "rg")):
                 J.vec("columnfile.updateGV(fast=%s, translation by %s)" % (fast, how),
                       np.array([cf2.gx, cf2.gy, cf2.gz]).T, orc.g)
 
+        # histories on ONE columnfile object: an update with other parameters first, then the parameters are edited in
+        # place (parameters.set / dictionary update - the idiom of dataset.update_colfile_pars and of fitting loops) and the
+        # object is updated again; nothing computed for the earlier parameters may survive
+        P0 = dict(P)
+        P0.update(o11=-P["o11"], o12=P["o21"], o21=P["o12"], tilt_x=P["tilt_y"] + 0.1, tilt_y=P["tilt_z"] - 0.05,
+                  tilt_z=P["tilt_x"] + 0.02, wedge=P["wedge"] + 7.0, chi=P["chi"] - 3.0, distance=P["distance"] * 1.5,
+                  y_center=P["y_center"] + 31.0, z_center=P["z_center"] - 17.0, y_size=P["y_size"] * 2, z_size=-P["z_size"],
+                  omegasign=-P["omegasign"], wavelength=P["wavelength"] * 1.25, t_x=P["t_x"] + 5.0, t_y=P["t_y"] - 7.0,
+                  t_z=P["t_z"] + 3.0)
+        for fast in (True, False):
+            for edit in ("set", "dict.update", "loadparameters"):
+                cf = rt.columnfile.colfile_from_dict({"sc": sc.copy(), "fc": fc.copy(), "omega": om.copy()})
+                cf.parameters = rt.parameters.parameters(**P0)
+                cf.updateGeometry(fast=fast)
+                if edit == "set":
+                    for k in sorted(P):
+                        cf.parameters.set(k, P[k])
+                elif edit == "dict.update":
+                    cf.parameters.parameters.update(P)
+                else:
+                    import tempfile
+                    fd, fn = tempfile.mkstemp(suffix=".par")
+                    os.close(fd)
+                    try:
+                        rt.parameters.parameters(**P).saveparameters(fn)
+                        cf.parameters.loadparameters(fn)
+                    finally:
+                        os.unlink(fn)
+                    if any(cf.parameters.get(k) != P[k] for k in P):
+                        continue                # (a value that does not survive the text file: not this property)
+                cf.updateGeometry(fast=fast)
+                lab = "columnfile.updateGeometry(fast=%s) after an update with other parameters and an in-place edit (%s)" % (fast, edit)
+                geometry_cols(lab, np.array([cf.xl, cf.yl, cf.zl]).T, cf.tth, cf.eta, cf.ds,
+                              np.array([cf.gx, cf.gy, cf.gz]).T)
+            cf2 = rt.columnfile.colfile_from_dict({"sc": sc.copy(), "fc": fc.copy(), "omega": om.copy()})
+            po = rt.parameters.parameters(**P0)
+            cf2.updateGV(pars=po, fast=fast)
+            for k in sorted(P):
+                po.set(k, P[k])
+            cf2.updateGV(pars=po, fast=fast)
+            J.vec("columnfile.updateGV(fast=%s) twice with one parameter object edited in between" % fast,
+                  np.array([cf2.gx, cf2.gy, cf2.gz]).T, orc.g)
+
     # ---- (4) numba point-by-point copies (no omegasign argument: callers pre-multiply) and get_local_gv
     if "numba" in routes and rt.pbp is not None:
         pbp = rt.pbp
